@@ -76,7 +76,8 @@ def fp_tree(rng: random.Random, depth: int, lazy_n: int = 0):
         dflt_ok = {(G.C_DATA, "b"): [("AlwaysValid",), ("Scalar", ("KInt",), None, [], [], [])],
                    (G.C_DERIVED2, "b"): [("AlwaysValid",), ("Scalar", ("KInt",), None, [], [], [])],
                    (G.C_SLOTSUB, "b"): [("AlwaysValid",), ("Scalar", ("KInt",), None, [], [], [])],
-                   (G.C_NAMED, "y"): [("AlwaysValid",), ("Scalar", ("KStr",), None, [("Strip",)], [], [])]}
+                   (G.C_NAMED, "y"): [("AlwaysValid",), ("Scalar", ("KStr",), None, [("Strip",)], [], [])],
+                   (G.C_FACTORY, "b"): [("AlwaysValid",), ("ListV", ("AlwaysValid",), [], [], None)]}
         schema = [P(G.S(nm), P(rng.choice(dflt_ok[(cid, nm)]) if (cid, nm) in dflt_ok else sub(), req)) for nm, req in flds]
         return ("ClassV", (rk,), N(cid), schema, obj(), None, rng.random() < 0.4, None)
     if r < 0.82:
